@@ -177,15 +177,15 @@ def rand_record(rng, cfg, idmap, evpool, kind, unknown=0.05):
     return dict(id=rid, ph=ph, pat=p["name"], idx=idx, hist=hist)
 
 
-def rand_note(rng, cfg, idmap, evpool):
+def rand_note(rng, cfg, idmap, evpool, multi_single=False):
     n = dict(comp=[], halt=[], upd=[])
-    for _ in range(rng.choice([1, 1, 1, 2, 3])):
+    for _ in range(rng.choice([1, 1, 1, 2, 3, 3] if multi_single else [1, 1, 1, 2, 3])):
         k = rng.choice(["upd", "upd", "upd", "comp", "halt"])
         r = rand_record(rng, cfg, idmap, evpool, k)
         if r is None or any(r["id"] == x["id"] for x in n[k]):
             continue
         single = r["id"] in idmap and idmap[r["id"]][1]["single"]
-        if single and k == "upd" and any(x["pat"] == r["pat"] and x["ph"] == r["ph"] for x in n["upd"]):
+        if single and not multi_single and k == "upd" and any(x["pat"] == r["pat"] and x["ph"] == r["ph"] for x in n["upd"]):
             continue      # a peer never has two active runs of a singleton pattern
         n[k].append(r)
     if rng.random() < 0.1 and n["upd"]:           # a merged backlog: the same run also finished
@@ -195,7 +195,7 @@ def rand_note(rng, cfg, idmap, evpool):
     return n
 
 
-def rand_ops(rng, cfg, nlocal, premote=0.35, remote_ids=(2000, 2001, 2002)):
+def rand_ops(rng, cfg, nlocal, premote=0.35, remote_ids=(2000, 2001, 2002), multi_single=False):
     """interleaving of local events and remote notes; remote records name run ids the local generator has
     already produced (idbase+k, k < drawn) or ids of another instance - never an id it will produce later;
     a run id is tied to one pattern"""
@@ -206,7 +206,7 @@ def rand_ops(rng, cfg, nlocal, premote=0.35, remote_ids=(2000, 2001, 2002)):
     while pos < nlocal:
         if rng.random() < premote:
             live = {i: v for i, v in idmap.items() if i >= 2000 or i >= cfg["idbase"] + drawn - 4}
-            ops.append(("remote", rand_note(rng, cfg, live, evpool)))
+            ops.append(("remote", rand_note(rng, cfg, live, evpool, multi_single)))
         else:
             et = (pos, pos, 0, rng.randint(1, 5), 0, 0)
             ops.append(("local", et))
